@@ -630,11 +630,34 @@ def generate(rng, tier):
         cases.append(gen_recipe_case(rng))
     for _ in range(120 if nq else 3000):
         cases.append(gen_malformed_recipe(rng))
+    for _ in range(10 if nq else 300):
+        cases.append(gen_nested_exclusion(rng))
     # single documented by-keyword with a plain UTC datetime start, every keyword, both modes
     for key in DOC_INT_KEYS:
         for _ in range(2 if nq else 30):
             cases.append(gen_recipe_single(rng, key))
     return cases
+
+
+def gen_nested_exclusion(rng):
+    """a nested schedule that has only an `exclude` of one of its OWN occurrences, used as include
+    (the excluded day must not come back) or as exclude (the excluded day must stay) of an outer rule"""
+    d0 = rand_day(rng)
+    dd = lambda k: d0 + timedelta(days=k)
+    lit = lambda d: lit_date(d) if rng.random() < 0.5 else L("str", d.isoformat())
+    if rng.random() < 0.5:
+        off = rng.choice([1, 2, 3, 4])
+        hole = rng.choice([0, 1, 2])
+        inner = L("event", kw=[["freq", L("str", "weekly")], ["start_date", lit(dd(off))], ["count", L("int", 4)],
+                               ["exclude", lit(dd(off + 7 * hole))]])
+        kw = [["freq", L("str", "weekly")], ["start_date", lit(d0)], ["include", inner]]
+        return {"kind": "recipe", "kw": kw, "mode": {"count": rng.choice([6, 7])}}
+    off = rng.choice([1, 2, 3])
+    hole = rng.choice([0, 1])
+    inner = L("event", kw=[["freq", L("str", "weekly")], ["start_date", lit(dd(off))],
+                           ["exclude", lit(dd(off + 7 * hole))]])
+    kw = [["freq", L("str", "daily")], ["start_date", lit(d0)], ["until", lit(dd(16))], ["exclude", inner]]
+    return {"kind": "recipe", "kw": kw, "mode": "for_each" if rng.random() < 0.5 else {"count": 12}}
 
 
 def gen_recipe_single(rng, key):
@@ -1704,6 +1727,8 @@ def directed_search(rng, disagreeing):
             out.append(gen_recipe_single(rng, key))
     for _ in range(1500):
         out.append(gen_recipe_case(rng))
+    for _ in range(60):
+        out.append(gen_nested_exclusion(rng))
     for key in INT_KEYS + ["byweekday", "interval", "count", "cache", "until"]:
         for _ in range(25):
             out.append(gen_direct_single(rng, key))
